@@ -55,6 +55,22 @@ def cuts(beh):
     return (dep[-1] if dep else -1, spl[-1] if spl else -1)
 
 
+def witnesses(k, num, seed):
+    """schedules (histories up to the StartSplitter step) on which the deviating design k uses two cuts in one start:
+    (those whose other cut is 'no checkpoint', those between two checkpoints), shortest first"""
+    r = vlib.run_tlc("Restart", cfg=dict(constants=k, invariants=["CexDump"]), simulate=num, depth=k["MaxLen"], seed=seed, timeout=200, name="Restart-cex")
+    if r.error and "timeout" not in r.error:
+        raise vlib.MachineryError("witness generation failed: %s\n%s" % (r.error, r.out[-3000:]))
+    seen, first, later = set(), [], []
+    for b in sorted(r.behaviours, key=len):
+        key = json.dumps(b, sort_keys=True)
+        if b[-1]["a"] != "StartSplitter" or key in seen:
+            continue
+        seen.add(key)
+        (first if 0 in cuts(b) else later).append(b)
+    return first, later, r
+
+
 def _replay(c, prop, k, behs, what):
     if not behs:
         raise vlib.MachineryError("no behaviours generated for " + what)
@@ -86,14 +102,13 @@ def single_cut_arm(c, tier, prop):
         if r.violated != "Safety":
             c.errors.append("Restart.tla with %s did not violate SingleCut: violated=%s error=%s" % (d, r.violated, r.error))
         for W in (1, 2):
-            kk = consts(W, 3, 2, maxlen=44 if W == 1 else 56, **{d: True})
-            behs, r = vlib.gen_counterexamples("Restart", kk, limit=40, num=600 if quick else 3000, depth=kk["MaxLen"], seed=c.seed * 10 + i, timeout=200)
+            kk = consts(W, 3, 2, maxlen=44 if W == 1 else 60, focus=True, **{d: True})
+            first, later, r = witnesses(kk, 600 if quick else 3000, c.seed * 10 + i)
             c.add_tlc(r, "Restart witness schedules with %s W=%d" % (d, W), must_hold=False)
             # both kinds: the first read sees no checkpoint at all / an earlier checkpoint
-            some = [b for b in behs if 0 in cuts(b)][:3 if quick else 10] + [b for b in behs if 0 not in cuts(b)][:5 if quick else 20]
-            if not some:
-                raise vlib.MachineryError("no witness schedule with %s W=%d" % (d, W))
-            wit.setdefault(W, []).extend(some)
+            if not first or not later:
+                raise vlib.MachineryError("no witness schedule with %s W=%d (%d without, %d with an earlier checkpoint)" % (d, W, len(first), len(later)))
+            wit.setdefault(W, []).extend(first[:3 if quick else 10] + later[:5 if quick else 20])
     viol = 0
     for W in sorted(wit):
         res = _replay(c, prop, consts(W, 3, 2), wit[W], "schedules on which a start() that re-reads the current checkpoint uses two cuts")
